@@ -59,7 +59,10 @@ Json::Value gen() {
   sc["devs"]["8:0"] = "ssd";
   sc["world"] = w0.toJson();
   bool rate = plugin == "kill_by_pg_scan" || plugin == "kill_by_io_cost";
-  int nticks = rate ? R(2, 3) : R(1, 2);
+  // earlier ticks may fire as well: what the kill walk read then (oom.group,
+  // prefer / avoid marks, populated) must be read again at the judged tick
+  bool warm = P(35);
+  int nticks = rate ? R(2, 3) + (warm ? 1 : 0) : R(1, 2) + (warm ? 1 : 0);
   World view = w0;
   Json::Value ticks(Json::arrayValue), scripts(Json::objectValue);
   for (int t = 0; t < nticks; t++) {
@@ -77,6 +80,12 @@ Json::Value gen() {
           c->io_stat[0].wios += R64(0, 10000);
         }
         if (P(40)) c->mem_current = pages(o.prof.maxlog2);
+        if (warm && P(25)) c->oom_group = c->oom_group ? 0 : 1;
+        if (warm && P(20)) {
+          bool had = false;
+          for (const char* n : {"trusted.oomd_prefer", "trusted.oomd_avoid", "user.oomd_prefer", "user.oomd_avoid"}) had = c->xattrs.erase(n) || had;
+          if (!had || P(50)) c->xattrs[vpgen::oneOf(std::vector<std::string>{"trusted.oomd_prefer", "trusted.oomd_avoid", "user.oomd_prefer", "user.oomd_avoid"})] = "1";
+        }
         Op op;
         op.op = "set";
         op.cg = *c;
@@ -86,7 +95,7 @@ Json::Value gen() {
     }
     tick["ops"] = ops;
     ticks.append(tick);
-    bool fire = t == nticks - 1 || (plugin == "kill_by_pg_scan" && t == nticks - 2);
+    bool fire = t == nticks - 1 || (plugin == "kill_by_pg_scan" && t == nticks - 2) || (warm && P(70));
     scripts["detectors"]["d0"].append(fire ? "C" : "S");
   }
   sc["ticks"] = ticks;
@@ -192,13 +201,41 @@ Verdict run(const Json::Value& sc) {
   }
   vps::DevCfg dev;
   dev.devs["8:0"] = "ssd";
+  // History is kept only for cgroups the plugin looked at in the previous tick:
+  // its targets and, with recursive targeting, what lies below them down to
+  // (and including) the first cgroup with memory.oom.group=1 - the walk of
+  // prerunOnCgroups, of which the kill walk is a subset. A cgroup that was
+  // outside that set at tick t-1 has no previous sample at tick t.
+  auto trackedAt = [&](int t) {
+    std::set<std::string> out;
+    const World& w = R.worlds[t];
+    auto tg = vpm::resolveArg(w, args["cgroup"].asString());
+    std::vector<std::string> st(tg.begin(), tg.end());
+    while (!st.empty()) {
+      std::string p = st.back();
+      st.pop_back();
+      const Cg* c = w.find(p);
+      if (!c || !out.insert(p).second) continue;
+      if (val.recursive && c->oom_group != 1)
+        for (auto* ch : w.children(p)) st.push_back(ch->path);
+    }
+    return out;
+  };
   std::map<std::string, Temporal> temp;
+  std::set<std::string> prevTracked;
   for (int t = 0; t <= killTick; t++) {
     const World& w = R.worlds[t];
+    std::set<std::string> tracked = trackedAt(t);
     for (auto& c : w.cgs) {
       Temporal& tm = temp[c.path];
+      bool now = tracked.count(c.path) || t == killTick; // the judged tick computes on demand
+      bool before = t > 0 && prevTracked.count(c.path);
+      if (!now) {
+        tm = Temporal();
+        continue;
+      }
       int64_t cur = c.path.empty() ? (w.host.mem("MemTotal") - w.host.mem("MemFree")) * 1024 : c.mem_current;
-      long double prev = tm.have_avg ? std::floor(tm.avg) : 0;
+      long double prev = (before && tm.have_avg) ? std::floor(tm.avg) : 0;
       tm.avg = prev * 0.75L + (long double)cur / 4.0L;
       tm.have_avg = true;
       long double cost = 0;
@@ -206,16 +243,16 @@ Verdict run(const Json::Value& sc) {
         if (d.major != 8 || d.minor != 0) continue;
         cost += (long double)d.rios * dev.ssd[0] + (long double)d.rbytes * dev.ssd[1] + (long double)d.wios * dev.ssd[2] + (long double)d.wbytes * dev.ssd[3] + (long double)d.dios * dev.ssd[4] + (long double)d.dbytes * dev.ssd[5];
       }
-      if (t > 0) {
-        tm.have_prev_io = true;
-        tm.prev_io = tm.cur_io;
-      }
+      tm.have_prev_io = before;
+      tm.prev_io = tm.cur_io;
       tm.cur_io = cost;
-      if (t == killTick && killTick > 0) {
+      tm.have_prev_pgscan = false;
+      if (t == killTick && before) {
         tm.have_prev_pgscan = true;
         tm.prev_pgscan = R.worlds[t - 1].find(c.path)->statv("pgscan", 0);
       }
     }
+    prevTracked = tracked;
   }
   const World& w = R.worlds[killTick];
   val.w = &w;
